@@ -278,6 +278,8 @@ class Client:
         self.request_semaphore = asyncio.Semaphore(1)
         self.pending_request = None
         self.pending_response = None
+        self.abandoned_request_timer: asyncio.TimerHandle | None = None
+        self.bearer_closed = False
         self.notification_subscribers = {}  # Subscriber set, by attribute handle
         self.indication_subscribers = {}  # Subscriber set, by attribute handle
         self.services = []
@@ -354,28 +356,49 @@ class Client:
         logger.debug(f'GATT Request from client: {self._bearer_id} {request}')
 
         # Wait until we can send (only one pending command at a time for the connection)
-        response = None
-        async with self.request_semaphore:
-            assert self.pending_request is None
-            assert self.pending_response is None
+        await self.request_semaphore.acquire()
+        assert self.pending_request is None
+        assert self.pending_response is None
 
-            # Create a future value to hold the eventual response
-            self.pending_response = asyncio.get_running_loop().create_future()
-            self.pending_request = request
+        # Create a future value to hold the eventual response
+        pending_response = asyncio.get_running_loop().create_future()
+        self.pending_response = pending_response
+        self.pending_request = request
 
-            try:
-                self.send_gatt_pdu(bytes(request))
-                response = await asyncio.wait_for(
-                    self.pending_response, GATT_REQUEST_TIMEOUT
+        abandoned = False
+        try:
+            self.send_gatt_pdu(bytes(request))
+            return await asyncio.wait_for(pending_response, GATT_REQUEST_TIMEOUT)
+        except asyncio.TimeoutError as error:
+            logger.warning(color('!!! GATT Request timeout', 'red'))
+            raise core.TimeoutError(f'GATT timeout for {request.name}') from error
+        except asyncio.CancelledError:
+            if pending_response.cancelled() and not self.bearer_closed:
+                # The caller gave up while its request is outstanding. The transaction
+                # stays open until the server answers it (or until it times out), so
+                # that this answer is not taken for the answer to the next request.
+                abandoned = True
+                self.abandoned_request_timer = (
+                    asyncio.get_running_loop().call_later(
+                        GATT_REQUEST_TIMEOUT, self.end_transaction, pending_response
+                    )
                 )
-            except asyncio.TimeoutError as error:
-                logger.warning(color('!!! GATT Request timeout', 'red'))
-                raise core.TimeoutError(f'GATT timeout for {request.name}') from error
-            finally:
-                self.pending_request = None
-                self.pending_response = None
+            raise
+        finally:
+            if not abandoned:
+                self.end_transaction(pending_response)
 
-        return response
+    def end_transaction(
+        self, pending_response: asyncio.futures.Future[att.ATT_PDU]
+    ) -> None:
+        if self.pending_response is not pending_response:
+            return
+        if self.abandoned_request_timer is not None:
+            self.abandoned_request_timer.cancel()
+            self.abandoned_request_timer = None
+        self.pending_request = None
+        self.pending_response = None
+        self.request_semaphore.release()
 
     def send_confirmation(
         self, confirmation: att.ATT_Handle_Value_Confirmation
@@ -1136,8 +1159,12 @@ class Client:
 
     def on_disconnection(self, *args) -> None:
         del args  # unused.
+        self.bearer_closed = True
         if self.pending_response and not self.pending_response.done():
             self.pending_response.cancel()
+        elif self.pending_response:
+            # The request of a caller that gave up will never be answered
+            self.end_transaction(self.pending_response)
 
     def on_gatt_pdu(self, att_pdu: att.ATT_PDU) -> None:
         logger.debug(f'GATT Response to client: {self._bearer_id} {att_pdu}')
@@ -1161,6 +1188,10 @@ class Client:
 
             # Return the response to the coroutine that is waiting for it
             assert self.pending_response is not None
+            if self.pending_response.done():
+                # The caller gave up; with this response its transaction is over
+                self.end_transaction(self.pending_response)
+                return
             self.pending_response.set_result(att_pdu)
         else:
             handler_name = f'on_{att_pdu.name.lower()}'
